@@ -18,58 +18,26 @@ variable {Tree : Type} {X : Ext Tree} {toTaxa : Name → List Label → List Tax
   {files : List (Name × Name)}
 
 /-- **C14 (abort or record).** `collect` returns a database exactly when the parser wrapper raises on
-no file and every direct internal import names a collected path — whatever `clean` does: since fix
-c7d362e an exception of the cleaning is absorbed (`safeClean`). -/
+no file — whatever `clean` does (fix c7d362e: an exception of the cleaning is absorbed) and whatever the
+labels name (fix 0c1b93c: no `KeyError` any more). -/
 theorem C14_collect_ok_iff :
-    (∃ db, collect X toTaxa files = .ok db) ↔
-      ParseOk X (files.map fun f => (f.1, srcOf X f)) ∧ Resolved (progsOf X files) := by
+    (∃ db, collect X toTaxa files = .ok db) ↔ ParseOk X (files.map fun f => (f.1, srcOf X f)) := by
   constructor
   · rintro ⟨db, h⟩
-    obtain ⟨hp, hm⟩ := collect_ok h
-    exact ⟨hp, C11.makeDb_ok_iff.mp ⟨db, hm⟩⟩
-  · rintro ⟨hp, hr⟩
-    obtain ⟨db, hm⟩ := (C11.makeDb_ok_iff (toTaxa := toTaxa)).mpr hr
+    exact (collect_ok h).1
+  · intro hp
+    obtain ⟨db, hm⟩ := C11.C11_total (toTaxa := toTaxa) (progs := progsOf X files)
     exact ⟨db, collect_of hp hm⟩
-
-/-- The labels the parser wrapper returns never have the `import_internally:` form. -/
-theorem rawLabels_progsOf (hp : ParseCaught X) (hpl : FeaturesPlain X) :
-    RawLabels (progsOf X files) := by
-  intro p hpm l hl
-  obtain ⟨f, -, rfl⟩ := List.mem_map.mp hpm
-  simp only [progOf, labelsD] at hl
-  cases hpp : parseProgram X (srcOf X f) with
-  | error e => rw [hpp] at hl; cases hl
-  | ok ls =>
-    rw [hpp] at hl
-    simp only at hl
-    unfold parseProgram at hpp
-    cases hx : X.parse (srcOf X f) with
-    | error e =>
-      rw [hx] at hpp
-      simp only [(hp _ e hx).1, if_true, Except.ok.injEq] at hpp
-      rw [← hpp, List.mem_singleton] at hl
-      rw [hl]
-      simp [astLabel, sAst, sInternalPrefix, sImport, dropPrefix?]
-    | ok t =>
-      rw [hx] at hpp
-      simp only at hpp
-      split at hpp
-      · simp only [Except.ok.injEq] at hpp
-        rw [← hpp, List.mem_singleton] at hl
-        rw [hl]
-        simp [emptyLabel, astLabel, sAst, sInternalPrefix, sImport, dropPrefix?]
-      · exact hpl _ t ls hpp l hl
 
 /-- **C14 (every file reported).** For all files and ALL behaviours of `clean` (it may raise anything)
 and of `parse` (raising only the classes the code catches), `collect` returns a database with exactly
 one record per file, in order; the record of a file whose `parse` fails with `E` holds the single label
 `ast_construction:E` on lines `1..(number of newlines + 1)` and, as taxa, the taxonomy's answer on that
 single label; an empty file likewise with `EmptyProgramError` (same lines, fix 57ac228). -/
-theorem C14_every_file_reported (hp : ParseCaught X) (hf : FeaturesTotal X) (hpl : FeaturesPlain X)
+theorem C14_every_file_reported (hp : ParseCaught X) (hf : FeaturesTotal X)
     (hn : (files.map (·.1)).Nodup) :
     ∃ db, collect X toTaxa files = .ok db ∧ Reported X toTaxa files db := by
-  have hr : Resolved (progsOf X files) := resolved_of_rawLabels (rawLabels_progsOf hp hpl)
-  obtain ⟨db, hm⟩ := (C11.makeDb_ok_iff (toTaxa := toTaxa)).mpr hr
+  obtain ⟨db, hm⟩ := C11.C11_total (toTaxa := toTaxa) (progs := progsOf X files)
   have hpo : ParseOk X (files.map fun f => (f.1, srcOf X f)) :=
     fun f _ => parseProgram_total hp hf f.2
   refine ⟨db, collect_of hpo hm, ?_⟩
@@ -124,8 +92,7 @@ def badExt : Ext Unit :=
 satisfy all the hypotheses, so the file is reported. -/
 example : ∃ db, collect badExt (fun _ _ => []) [(exPath, [])] = .ok db ∧
     Reported badExt (fun _ _ => []) [(exPath, [])] db :=
-  C14_every_file_reported (fun src e he => by simp [badExt] at he) (fun src t => ⟨[], rfl⟩)
-    (fun src t ls h l hl => by simp [badExt] at h; rw [h] at hl; cases hl) (by decide)
+  C14_every_file_reported (fun src e he => by simp [badExt] at he) (fun src t => ⟨[], rfl⟩) (by decide)
 
 /-- **C14 (others unaffected).** Removing a file `b` from the directory does not change the record of
 any other file `g`, provided no label of `g` names `b`'s module (the relabelling of internal imports
